@@ -51,8 +51,8 @@ Record ps_cfg := mkCfg {
 (* coap_resource_init: r->observe = 2 *)
 Definition PS_OBSERVE0 := 2.
 
-(* a 2.05 response with an Observe option on the wire: (session, token, Observe value) *)
-Definition ps_send := (bytes * bytes * Z)%type.
+(* a 2.05 response with an Observe option on the wire: (resource, session, token, Observe value) *)
+Definition ps_send := (bytes * bytes * bytes * Z)%type.
 
 Definition ps_mem := list ps_rsrc.
 
@@ -168,7 +168,7 @@ Section Events.
     | Some r =>
         if negb (psr_observable r) then PsRet (Some (m, [])) else
         match ps_find_tok tuple token (psr_subs r) with
-        | Some _ => PsRet (Some (m, [(tuple, token, psr_observe r)]))
+        | Some _ => PsRet (Some (m, [(name, tuple, token, psr_observe r)]))
         | None =>
             let old := ps_find_ck tuple ck (psr_subs r) in
             let subs1 := match old with
@@ -185,7 +185,7 @@ Section Events.
             (ps_when (psc_obs c)
                      (ps_obs_added (psc_la c) (psc_lt c) (psc_fuel c) (ps_obs_of c s))
             (ps_track c name (psr_observe r)
-            (PsRet (Some (m2, [(tuple, token, psr_observe r)])))))
+            (PsRet (Some (m2, [(name, tuple, token, psr_observe r)])))))
         end
     end.
 
@@ -217,7 +217,7 @@ Section Events.
             ps_when (psc_cnt c && (v mod psc_freq c =? 0))
                     (ps_cnt_track (psc_fuel c) name v)
               (PsRet (Some (ps_replace (mkRsrc name true v (psr_subs r)) m,
-                            map (fun s => (pss_tuple s, pss_token s, v)) (psr_subs r))))
+                            map (fun s => (name, pss_tuple s, pss_token s, v)) (psr_subs r))))
         | _, _ => PsRet (Some (m, []))
         end
     end.
